@@ -26,7 +26,7 @@ from harness.translate import excflow, excflow_tables as T
 
 PROP = 'C09'
 PROP_FILE = 'Props/C09.v'
-THEOREMS = ['escapes_sound', 'C09_http', 'C09_ftp', 'C09_robots', 'C09_scrape']
+THEOREMS = ['escapes_sound', 'C09_http', 'C09_ftp', 'C09_robots', 'C09_scrape', 'C09_process']
 TRUSTED = [
     'harness/translate/excflow.py + excflow_tables.py (fail-closed printer of the raise/try/except/finally/with/call/loop/branch '
     'structure and its explicit call-resolution tables); what the printed terms mean is Model/ExcLang.v',
@@ -58,7 +58,8 @@ TECHNIQUE = 'translator-regenerated exception-flow summary + escape analysis pro
 
 _STATE = {}
 GEN = os.path.join(common.COQ, 'Gen', 'ExcFlow.v')
-LABELS = ['http', 'ftp', 'robots', 'scrape']
+LABELS = ['http', 'ftp', 'robots', 'scrape', 'process']     # entry lists of Gen/ExcFlow.v
+FUZZ_KINDS = ['http', 'ftp', 'robots', 'scrape']
 
 
 # --------------------------------------------------------------------------
@@ -426,7 +427,7 @@ def gen_ftp(r):
             elif m == 1:
                 replies = replies[:i + 1]
             elif m == 2:
-                replies[i] = replies[i][:r.randrange(len(replies[i]))]
+                replies[i] = replies[i][:r.randrange(len(replies[i]) + 1)]
                 replies = replies[:i + 1]
             elif m == 3:
                 replies[i] = r.choice([b'220 a\r230 b\r\n', b'22\r\n', b'2200 x\r\n', b'abc def\r\n', b'\r\n', b'220-a\r\n', b'220x\r\n',
@@ -554,6 +555,78 @@ def gen_scrape(r):
             'status': r.choice([200, 200, 200, 404, 206]), 'tag': '%s/%s' % (fam_name, tag)}
 
 
+def doc_response(r):
+    """a well-framed HTTP response carrying a (possibly hostile) document, for the end-to-end scrape path"""
+    c = gen_scrape(r)
+    body = bytes.fromhex(c['body'])
+    head = b'HTTP/1.1 200 OK\r\nContent-Length: %d\r\n' % len(body)
+    if c['ctype'] is not None:
+        head += b'Content-Type: ' + c['ctype'].encode('latin-1') + b'\r\n'
+    for k, v in c['fields']:
+        head += k.encode() + b': ' + v.encode('latin-1', 'replace') + b'\r\n'
+    path = '/' + c['url'].split('/', 3)[3].split('#')[0] if c['url'].count('/') >= 3 else '/'
+    return path or '/', head + b'\r\n' + body, c['tag']
+
+
+def gen_e2e_http(r, k=8):
+    table, urls, tags = {}, [], []
+    for i in range(k):
+        if r.randrange(3) == 0:
+            path, msg, tag = doc_response(r)
+            path = '/d%d%s' % (i, path)
+        else:
+            msg, h = http_response(r, hostile=r.randrange(4) != 0)
+            path, tag = '/p%d' % i, 'hostile' if h else 'valid'
+        table[path] = H(msg)
+        urls.append('http://raw%d:{RAWPORT}%s' % (i % 3, path))
+        tags.append(tag)
+    robots = r.randrange(2) == 0
+    if robots:
+        body = r.choice(ROBOTS)
+        if r.randrange(2):
+            body = mutate(r, body)
+        table['/robots.txt'] = H(http_response(r, r.choice([200, 200, 302, 500, 404]), hostile=r.randrange(3) == 0, body=body)[0])
+    args = urls + ['http://ctl:{PORT}/control', '--tries', '1', '--concurrent', '1', '--timeout', '5', '-r', '-l', '1', '--sitemaps',
+                   '--span-hosts', '--max-redirect', '2']
+    if not robots:
+        args.append('--no-robots')
+    return {'kind': 'e2e', 'proto': 'http', 'args': args, 'raw_http': table, 'tag': 'e2e-http%s' % ('+robots' if robots else ''), 'tags': tags}
+
+
+def gen_e2e_ftp(r):
+    ok = {'USER': [b'331 pw\r\n'], 'PASS': [b'230 ok\r\n'], 'TYPE': [b'200 T\r\n'], 'SIZE': [b'213 5\r\n'], 'CWD': [b'250 ok\r\n'],
+          'PASV': [b'227 Entering Passive Mode (127,0,0,1,{P1},{P2})\r\n'], 'MLSD': [r.choice([b'500 no\r\n', b'150 go\r\n226 done\r\n'])],
+          'LIST': [b'150 go\r\n226 done\r\n'], 'RETR': [b'150 go\r\n226 done\r\n'], 'REST': [b'350 ok\r\n']}
+    by = {v: [H(x) for x in xs] for v, xs in ok.items()}
+    greeting = b'220 hi\r\n'
+    hostile = r.randrange(5) != 0
+    if hostile:
+        for _ in range(r.choice([1, 1, 2])):
+            verb = r.choice(list(by) + ['GREETING'])
+            bad = r.choice([b'220 a\r230 b\r\n', b'22\r\n', b'abc def\r\n', b'\r\n', b'220 ' + b'a' * BIG + b'\r\n', b'\xff\xfe\xfd\r\n',
+                            b'421 bye\r\n', b'550 no\r\n', b'530 login\r\n', b'227 pasv (1,2,3,4,999,999)\r\n', b'227 (1,2,3)\r\n', b'213 abc\r\n',
+                            b'150 go\r\n', b'150 go\r\n451 broke\r\n', b'226-' + b'x' * BIG + b'\r\n226 y\r\n', b'200', b'',
+                            ftp_reply(r, r.choice(FTP_CODES), True)])
+            after = r.choice([0, 0, 1, 2])          # the k-th occurrence of the verb misbehaves
+            if verb == 'GREETING':
+                greeting = bad
+            else:
+                good = by[verb][0]
+                by[verb] = [good] * after + [r.choice([H(bad), 'CLOSE'])] + ([good] if r.randrange(2) else [])
+    pool = r.choice([UNIX_LINES, DOS_LINES, MLSD_LINES, UNIX_LINES + DOS_LINES])
+    lines = [b'-rw-r--r-- 1 u g 5 Jan 01 2015 f.txt', b'drwxr-xr-x 2 u g 4096 Jan 01 2015 sub'] + [r.choice(pool) for _ in range(r.choice([0, 2, 6]))]
+    if r.randrange(2):
+        lines = [mutate(r, ln, runs=(300, 1500)) if r.randrange(3) == 0 else ln for ln in lines]
+    listing = b'\r\n'.join(lines) + b'\r\n'
+    data = {'LIST': H(listing), 'MLSD': H(b'\r\n'.join(r.choice(MLSD_LINES) for _ in range(4)) + b'\r\n'), 'RETR': H(b'hello')}
+    urls = r.choice([['ftp://127.0.0.1:{FTPPORT}/dir/'], ['ftp://127.0.0.1:{FTPPORT}/dir/f.txt'], ['ftp://127.0.0.1:{FTPPORT}/a', 'ftp://u:p@127.0.0.1:{FTPPORT}/dir/']])
+    args = urls + ['http://ctl:{PORT}/control', '--tries', '1', '--concurrent', '1', '--timeout', '5', '-r', '-l', '2', '--no-robots']
+    if r.randrange(2):
+        args.append('--preserve-permissions')
+    return {'kind': 'e2e', 'proto': 'ftp', 'args': args, 'ftp': {'greeting': H(greeting), 'by_verb': by, 'data': data},
+            'tag': 'e2e-ftp-%s' % ('hostile' if hostile else 'valid')}
+
+
 GENS = {'http': gen_http, 'robots': gen_robots, 'ftp': gen_ftp, 'scrape': gen_scrape}
 
 # regression corpus: the inputs of the defects this check found on the unrepaired tree (always run first)
@@ -588,9 +661,38 @@ CORPUS = [
 ]
 
 
+CORPUS_E2E = [
+    # robots.txt redirecting to a URL without host and port -> AssertionError in the connection pool
+    {'kind': 'e2e', 'proto': 'http', 'tag': 'corpus-e2e-robots-mailto',
+     'args': ['http://raw0:{RAWPORT}/p0', 'http://ctl:{PORT}/control', '-r', '--tries', '1', '--concurrent', '1', '--timeout', '5'],
+     'raw_http': {'/robots.txt': H(b'HTTP/1.1 302 Found\r\nLocation: mailto:a@b\r\nContent-Length: 0\r\n\r\n'),
+                  '/p0': H(b'HTTP/1.1 200 OK\r\nContent-Length: 2\r\n\r\nok')}},
+    # F24 end to end: 70 kB chunked trailer line
+    {'kind': 'e2e', 'proto': 'http', 'tag': 'corpus-e2e-F24',
+     'args': ['http://raw0:{RAWPORT}/p0', 'http://ctl:{PORT}/control', '--tries', '1', '--concurrent', '1', '--timeout', '5', '--no-robots'],
+     'raw_http': {'/p0': H(b'HTTP/1.1 200 OK\r\nTransfer-Encoding: chunked\r\n\r\n5\r\nhello\r\n0\r\nX: ' + b'a' * BIG + b'\r\n\r\n')}},
+    # FTP: the server goes away while the parent directory of a URL of unknown type is listed
+    {'kind': 'e2e', 'proto': 'ftp', 'tag': 'corpus-e2e-ftp-parent-listing',
+     'args': ['ftp://127.0.0.1:{FTPPORT}/file.txt', 'http://ctl:{PORT}/control', '--tries', '1', '--concurrent', '1', '--timeout', '5', '--no-robots'],
+     'ftp': {'greeting': H(b'220 hi\r\n'), 'by_verb': {'USER': ['CLOSE']}, 'data': ''}},
+    # FTP --preserve-permissions: the second LIST (for the permissions) fails after the file was fetched
+    {'kind': 'e2e', 'proto': 'ftp', 'tag': 'corpus-e2e-ftp-permissions',
+     'args': ['ftp://127.0.0.1:{FTPPORT}/dir/', 'http://ctl:{PORT}/control', '-r', '--tries', '1', '--concurrent', '1', '--timeout', '5', '--no-robots',
+              '--preserve-permissions'],
+     'ftp': {'greeting': H(b'220 hi\r\n'),
+             'by_verb': {'USER': [H(b'331 pw\r\n')], 'PASS': [H(b'230 ok\r\n')], 'TYPE': [H(b'200 T\r\n')], 'SIZE': [H(b'213 5\r\n')],
+                         'PASV': [H(b'227 Entering Passive Mode (127,0,0,1,{P1},{P2})\r\n')], 'MLSD': [H(b'500 no\r\n')],
+                         'LIST': [H(b'150 go\r\n226 done\r\n'), 'CLOSE'], 'RETR': [H(b'150 go\r\n226 done\r\n')]},
+             'data': {'LIST': H(b'-rw-r--r-- 1 u g 5 Jan 01 2015 file.txt\r\n'), 'RETR': H(b'hello')}}},
+]
+
+
 def generate(seed_tag, counts):
-    cases = list(CORPUS)
-    for kind in LABELS:
+    cases = list(CORPUS) + list(CORPUS_E2E)
+    r = common.rng('c09/%s/e2e' % seed_tag)
+    for i in range(counts.get('e2e', 0)):
+        cases.append(gen_e2e_http(r) if i % 2 == 0 else gen_e2e_ftp(r))
+    for kind in FUZZ_KINDS:
         r = common.rng('c09/%s/%s' % (seed_tag, kind))
         for _ in range(counts[kind]):
             cases.append(GENS[kind](r))
@@ -600,7 +702,55 @@ def generate(seed_tag, counts):
 # --------------------------------------------------------------------------
 # running and judging
 # --------------------------------------------------------------------------
+def _run_e2e_one(ctx, case):
+    """one complete crawl of the REAL application: hostile URLs first, a control URL on a well-behaved server last
+    (concurrency 1).  The property fails when the crawl does not run to its normal end: it crashed, it stopped on
+    an error before the control URL was requested, or it exited without the closing FINISHED statistics."""
+    from harness.fakes import crawl
+    spec = {'args': list(case['args']), 'repo': ctx.repo,
+            'site': {'ctl': {'/control': {'body': 'control'}, '/robots.txt': {'status': 404}}}}
+    if case['proto'] == 'http':
+        spec['raw_http'] = case['raw_http']
+        spec['pre_hooks'] = ['harness.fakes.c09_ftpd.start_raw']
+    else:
+        spec['ftp'] = case['ftp']
+        spec['pre_hooks'] = ['harness.fakes.c09_ftpd.start']
+    r = crawl.run_crawl(spec, timeout=150)
+    reached = any(q.get('path') == '/control' for q in r.get('requests', []))
+    err = r.get('stderr_tail') or ''
+    crashed = 'unexpectedly crashed' in err
+    finished = 'FINISHED.' in err          # the statistics line of a crawl that ran to its normal end
+    res = {'exc': None, 'handled': True, 'stage': 'done', 'kind': 'e2e', 'ms': 0, 'exit_code': r.get('exit_code'),
+           'rows': [[x['url'].split('/', 3)[-1][:40], x['status']] for x in r.get('rows', [])][:20]}
+    if r.get('timed_out'):
+        res.update(exc='crawl-timed-out', handled=False, mro=['crawl-timed-out'], where='timeout', msg='no result after 150 s')
+    elif crashed or not reached or not finished:
+        lines = [ln for ln in err.splitlines() if ln.strip()]
+        last = ''
+        for ln in lines:
+            if re.match(r'^(\w+\.)*\w*(Error|Exception)\b', ln) or ln.startswith('ERROR '):
+                last = ln
+        cls = re.match(r'^(?:ERROR )?((?:\w+\.)*\w+)', last).group(1) if last else 'unknown'
+        res.update(exc='crawl-ended:' + cls, handled=False, mro=['crawl-ended'], msg=last[:200],
+                   where='crashed' if crashed else 'exit-%s' % r.get('exit_code'), stage='crawl')
+    return res
+
+
 def _run(ctx, cases, shards=6):
+    e2e = [i for i, c in enumerate(cases) if c['kind'] == 'e2e']
+    if e2e:
+        from concurrent.futures import ThreadPoolExecutor
+        rest = [i for i, c in enumerate(cases) if c['kind'] != 'e2e']
+        results = [None] * len(cases)
+        with ThreadPoolExecutor(max_workers=6) as ex:
+            fut = ex.submit(lambda: _run(ctx, [cases[i] for i in rest], shards=3) if rest else ([], None))
+            e2e_res = list(ex.map(lambda i: _run_e2e_one(ctx, cases[i]), e2e))
+            rest_res, remote = fut.result()
+        for i, res in zip(e2e, e2e_res):
+            results[i] = res
+        for i, res in zip(rest, rest_res):
+            results[i] = res
+        return results, remote
     r = common.rng('c09/shuffle')
     order = list(range(len(cases)))
     r.shuffle(order)                      # balance the expensive cases over the shards
@@ -620,6 +770,8 @@ def _violates(case, res):
     """the property itself on the implementation's answer"""
     if res['exc'] is None:
         return None
+    if case['kind'] == 'e2e':
+        return 'the crawl did not run to its normal end: %s (%s, exit code %s)' % (res['exc'], res.get('where'), res.get('exit_code'))
     if case['kind'] == 'scrape':
         return 'link extraction raised %s (%s)' % (res['exc'], res.get('where'))
     if not res['handled']:
@@ -644,7 +796,7 @@ def _judge(cases, results, sets):
             if k not in best or size < best[k][0]:      # one replay per class of violation: the smallest input seen
                 best[k] = (size, v)
         if res['exc'] is not None and sets is not None:
-            ms = sets.get(case['kind'])
+            ms = sets.get('process' if case['kind'] == 'e2e' else case['kind'])
             if ms is not None and not any(m in ms for m in res['mro']):
                 k = (case['kind'], res['exc'], res.get('where'))
                 if k not in seen_d:
@@ -655,8 +807,8 @@ def _judge(cases, results, sets):
     return dis, [v for _, v in best.values()]
 
 
-QUICK = {'http': 5000, 'robots': 1500, 'ftp': 5000, 'scrape': 4000}
-THOROUGH = {'http': 150000, 'robots': 40000, 'ftp': 150000, 'scrape': 100000}
+QUICK = {'http': 8000, 'robots': 2500, 'ftp': 7000, 'scrape': 5000, 'e2e': 20}
+THOROUGH = {'http': 150000, 'robots': 40000, 'ftp': 150000, 'scrape': 100000, 'e2e': 600}
 
 
 def correspondence(ctx):
